@@ -61,14 +61,14 @@ theorem hoareM_conseq {H : HostOps σ} {P P' : Creds → Prop} {m : M α} {Q Q' 
   fun st => hoare_conseq (h st) hP (fun _ _ => hQ _ _)
 
 theorem InertM.hoareM {H : HostOps σ} {m : M α} (h : InertM H m) (c0 : Creds) :
-    HoareM H (· = c0) m (fun _ c => c = c0) := fun st => (h st).hoare c0
+    HoareM H (· = c0) m (fun _ c => c = c0) := fun st => (h.h st).hoare c0
 
 theorem NeutralM.hoareM {H : HostOps σ} {m : M α} (h : NeutralM H m) (c0 : Creds) (b : Base c0) :
-    HoareM H (· = c0) m (fun _ c => CredsKept c0 c) := fun st => (h st).hoare c0 b
+    HoareM H (· = c0) m (fun _ c => CredsKept c0 c) := fun st => (h.h st).hoare c0 b
 
 theorem neutralM_of_hoareM {H : HostOps σ} {m : M α}
     (h : ∀ c0, Base c0 → HoareM H (· = c0) m (fun _ c => CredsKept c0 c)) : NeutralM H m :=
-  fun st => neutral_of_hoare (fun c0 b => h c0 b st)
+  ⟨fun st => neutral_of_hoare (fun c0 b => h c0 b st)⟩
 
 theorem hoareM_pure (H : HostOps σ) (P : Creds → Prop) (a : α) :
     HoareM H P (pure a : M α) (fun r c => r = .ok a ∧ P c) := fun _ _ h => ⟨rfl, h⟩
@@ -139,5 +139,378 @@ theorem hoareM_sys_setresuid0 (c0 : Creds) :
   · rw [z] at h1; cases h1
 
 end calls
+
+end Fbr.PtHost
+
+namespace Fbr.PtHost
+open Fbr.Host
+
+variable {σ : Type} {α β : Type} {H : HostOps σ} [L : HostLaws H]
+
+omit L in
+theorem hoareM_pre_pure {φ : Prop} {P : Creds → Prop} {m : M α} {Q : Except Nat α → Creds → Prop}
+    (h : φ → HoareM H P m Q) : HoareM H (fun c => φ ∧ P c) m Q :=
+  fun st s hp => h hp.1 st s hp.2
+
+/-! ### `ScopedGid` / `ScopedUid` / `set_creds` -/
+
+theorem hoareM_scopedGid (c0 : Creds) (gid : Nat) :
+    HoareM H (· = c0) (scopedGid gid)
+      (fun r c => (r = .ok (decide (gid ≠ 0)) ∧ c = (if gid = 0 then c0 else { c0 with egid := gid })) ∨
+                  ((∃ e, r = .error e) ∧ c = c0)) := by
+  unfold scopedGid
+  by_cases hg : gid = 0
+  · simp only [hg, if_true]
+    exact hoareM_conseq (hoareM_pure H _ false) (fun _ h => h) (fun a c h => Or.inl (by simpa using h))
+  · simp only [hg, if_false]
+    refine hoareM_bind (hoareM_unit_setresgid c0 gid) ?_ ?_
+    · intro a
+      refine hoareM_conseq (hoareM_pure H _ true) (fun _ h => h) ?_
+      intro r c ⟨h1, h2⟩
+      rcases h2 with ⟨_, h2⟩ | ⟨⟨e, he⟩, _⟩
+      · left; exact ⟨by simp [h1, hg], h2⟩
+      · cases he
+    · intro e c h
+      rcases h with ⟨h1, _⟩ | ⟨_, h2⟩
+      · cases h1
+      · right; exact ⟨⟨e, rfl⟩, h2⟩
+
+theorem hoareM_scopedUid (c0 : Creds) (uid : Nat) :
+    HoareM H (· = c0) (scopedUid uid)
+      (fun r c => (r = .ok (decide (uid ≠ 0)) ∧ c = (if uid = 0 then c0 else c0.afterSetuid uid)) ∨
+                  ((∃ e, r = .error e) ∧ c = c0)) := by
+  unfold scopedUid
+  by_cases hg : uid = 0
+  · simp only [hg, if_true]
+    exact hoareM_conseq (hoareM_pure H _ false) (fun _ h => h) (fun a c h => Or.inl (by simpa using h))
+  · simp only [hg, if_false]
+    refine hoareM_bind (hoareM_unit_setresuid c0 uid) ?_ ?_
+    · intro a
+      refine hoareM_conseq (hoareM_pure H _ true) (fun _ h => h) ?_
+      intro r c ⟨h1, h2⟩
+      rcases h2 with ⟨_, h2⟩ | ⟨⟨e, he⟩, _⟩
+      · left; exact ⟨by simp [h1, hg], h2⟩
+      · cases he
+    · intro e c h
+      rcases h with ⟨h1, _⟩ | ⟨_, h2⟩
+      · cases h1
+      · right; exact ⟨⟨e, rfl⟩, h2⟩
+
+/-- credentials inside a `set_creds(uid, gid)` scope entered from `c0` -/
+def inScope (c0 : Creds) (uid gid : Nat) : Creds :=
+  let c1 : Creds := if gid = 0 then c0 else { c0 with egid := gid }
+  if uid = 0 then c1 else c1.afterSetuid uid
+
+theorem hoareM_setCreds (c0 : Creds) (b : Base c0) (uid gid : Nat) :
+    HoareM H (· = c0) (setCreds uid gid)
+      (fun r c => (r = .ok (decide (uid ≠ 0), decide (gid ≠ 0)) ∧ c = inScope c0 uid gid) ∨
+                  ((∃ e, r = .error e) ∧ c = c0)) := by
+  unfold setCreds
+  refine hoareM_bind (hoareM_scopedGid c0 gid) ?_ ?_
+  · intro g
+    -- the gid guard is alive (or gid = 0)
+    refine hoareM_conseq (P := fun c => g = decide (gid ≠ 0) ∧ c = (if gid = 0 then c0 else { c0 with egid := gid })) ?_ ?_ (fun _ _ h => h)
+    · refine hoareM_pre_pure (fun hg => ?_)
+      refine hoareM_bind (hoareM_try (hoareM_scopedUid _ uid)) ?_ ?_
+      · intro r
+        cases r with
+        | ok u =>
+          refine hoareM_conseq (hoareM_pure H _ (u, g)) (fun _ h => h) ?_
+          intro r c ⟨h1, x, hx, h2⟩
+          cases hx
+          rcases h2 with ⟨h2, h3⟩ | ⟨⟨e, he⟩, _⟩
+          · left
+            cases h2
+            exact ⟨by rw [h1, hg], by simp only [inScope]; exact h3⟩
+          · cases he
+        | error e =>
+          -- the uid switch failed: the gid guard is dropped, the error returned
+          refine hoareM_bind (Q := fun _ c => c = c0) ?_ (fun _ => ?_) (fun e c h => ?_)
+          · unfold dropGid
+            by_cases hgz : gid = 0
+            · have : g = false := by simp [hg, hgz]
+              subst this
+              simp only [Bool.false_eq_true, if_false]
+              refine hoareM_conseq (hoareM_pure H _ ()) (fun _ h => h) ?_
+              intro r c ⟨_, ⟨x, hx, h2⟩⟩
+              cases hx
+              rcases h2 with ⟨h2, _⟩ | ⟨_, h3⟩
+              · cases h2
+              · simpa [hgz] using h3
+            · have : g = true := by simp [hg, hgz]
+              subst this
+              simp only [if_true]
+              refine hoareM_conseq (P := fun c => c = ({ c0 with egid := gid } : Creds)) ?_ ?_ (fun _ _ h => h)
+              · refine hoareM_bind (hoareM_sys_setresgid0 _) (fun _ => ?_) (fun e c h => by obtain ⟨⟨a, ha⟩, _⟩ := h; cases ha)
+                refine hoareM_conseq (hoareM_pure H _ ()) (fun _ h => h) ?_
+                intro r c ⟨_, _, h3⟩
+                rw [h3]
+                obtain ⟨_, b2, _⟩ := b
+                cases c0; simp_all
+              · intro c ⟨x, hx, h2⟩
+                cases hx
+                rcases h2 with ⟨h2, _⟩ | ⟨_, h3⟩
+                · cases h2
+                · simpa [hgz] using h3
+          · refine hoareM_conseq (hoareM_throw H _ e) (fun _ h => h) ?_
+            intro r c ⟨h1, h2⟩
+            right; exact ⟨⟨e, h1⟩, h2⟩
+          · right; exact ⟨⟨e, rfl⟩, h⟩
+      · intro e c h
+        obtain ⟨x, hx, _⟩ := h
+        cases hx
+    · intro c h
+      rcases h with ⟨h1, h2⟩ | ⟨⟨e, he⟩, _⟩
+      · cases h1; exact ⟨rfl, h2⟩
+      · cases he
+  · intro e c h
+    rcases h with ⟨h1, _⟩ | ⟨_, h2⟩
+    · cases h1
+    · right; exact ⟨⟨e, rfl⟩, h2⟩
+
+end Fbr.PtHost
+
+namespace Fbr.PtHost
+open Fbr.Host
+
+variable {σ : Type} {α β : Type} {H : HostOps σ} [L : HostLaws H]
+
+/-! ### guard drop and the guarded block -/
+
+theorem hoareM_dropGid (c1 : Creds) (g : Bool) :
+    HoareM H (· = c1) (dropGid g) (fun r c => (∃ a, r = .ok a) ∧ c = (if g then { c1 with egid := 0 } else c1)) := by
+  unfold dropGid
+  cases g with
+  | false =>
+    simp only [Bool.false_eq_true, if_false]
+    exact hoareM_conseq (hoareM_pure H _ ()) (fun _ h => h) (fun r c h => ⟨⟨_, h.1⟩, h.2⟩)
+  | true =>
+    simp only [if_true]
+    refine hoareM_bind (hoareM_sys_setresgid0 c1) (fun _ => ?_) (fun e c h => by obtain ⟨⟨a, ha⟩, _⟩ := h; cases ha)
+    exact hoareM_conseq (hoareM_pure H _ ()) (fun _ h => h) (fun r c h => ⟨⟨_, h.1⟩, h.2.2⟩)
+
+theorem hoareM_dropUid (c1 : Creds) (g : Bool) :
+    HoareM H (· = c1) (dropUid g) (fun r c => (∃ a, r = .ok a) ∧ c = (if g then c1.afterSetuid 0 else c1)) := by
+  unfold dropUid
+  cases g with
+  | false =>
+    simp only [Bool.false_eq_true, if_false]
+    exact hoareM_conseq (hoareM_pure H _ ()) (fun _ h => h) (fun r c h => ⟨⟨_, h.1⟩, h.2⟩)
+  | true =>
+    simp only [if_true]
+    refine hoareM_bind (hoareM_sys_setresuid0 c1) (fun _ => ?_) (fun e c h => by obtain ⟨⟨a, ha⟩, _⟩ := h; cases ha)
+    exact hoareM_conseq (hoareM_pure H _ ()) (fun _ h => h) (fun r c h => ⟨⟨_, h.1⟩, h.2.2⟩)
+
+/-- leaving a `set_creds` scope entered from a `Base` state restores it (up to the refresh of the
+    effective capability set by the uid round trip) -/
+theorem inScope_dropped (c0 : Creds) (b : Base c0) (uid gid : Nat) :
+    CredsKept c0
+      (let c2 : Creds := if decide (gid ≠ 0) then { inScope c0 uid gid with egid := 0 } else inScope c0 uid gid
+       if decide (uid ≠ 0) then c2.afterSetuid 0 else c2) := by
+  obtain ⟨b1, b2, b3⟩ := b
+  by_cases hu : uid = 0 <;> by_cases hg : gid = 0 <;>
+    simp [inScope, Creds.afterSetuid, CredsKept, hu, hg, b1, b2]
+
+theorem hoareM_dropCreds (c0 : Creds) (b : Base c0) (uid gid : Nat) :
+    HoareM H (· = inScope c0 uid gid) (dropCreds (decide (uid ≠ 0), decide (gid ≠ 0)))
+      (fun r c => (∃ a, r = .ok a) ∧ CredsKept c0 c) := by
+  unfold dropCreds
+  refine hoareM_bind (hoareM_dropGid _ _) (fun _ => ?_) (fun e c h => by obtain ⟨⟨a, ha⟩, _⟩ := h; cases ha)
+  refine hoareM_conseq (P := fun c => c = (if decide (gid ≠ 0) then { inScope c0 uid gid with egid := 0 } else inScope c0 uid gid)) (hoareM_dropUid _ _) (fun c h => h.2) ?_
+  intro r c ⟨h1, h2⟩
+  refine ⟨h1, ?_⟩
+  rw [h2]
+  exact inScope_dropped c0 b uid gid
+
+/-- `{ let (_uid, _gid) = set_creds(uid, gid)?; body }` is balanced when `body` does not touch the
+    credentials: every exit path (gid switch fails, uid switch fails after the gid switch, body
+    fails, body succeeds) ends with the credentials of the start -/
+theorem neutralM_withCreds (uid gid : Nat) {body : M α} (hb : InertM H body) : NeutralM H (withCreds uid gid body) := by
+  refine neutralM_of_hoareM (fun c0 b => ?_)
+  unfold withCreds
+  refine hoareM_bind (hoareM_setCreds c0 b uid gid) (fun g => ?_) ?_
+  · refine hoareM_conseq (P := fun c => g = (decide (uid ≠ 0), decide (gid ≠ 0)) ∧ c = inScope c0 uid gid) ?_ ?_ (fun _ _ h => h)
+    · refine hoareM_pre_pure (fun hg => ?_)
+      subst hg
+      refine hoareM_bind (hoareM_try (hb.hoareM _)) (fun r => ?_) (fun e c h => by obtain ⟨x, hx, _⟩ := h; cases hx)
+      refine hoareM_conseq (P := fun c => c = inScope c0 uid gid) ?_ (fun c h => by obtain ⟨x, _, h2⟩ := h; exact h2) (fun _ _ h => h)
+      refine hoareM_bind (hoareM_dropCreds c0 b uid gid) (fun _ => ?_) (fun e c h => by obtain ⟨⟨a, ha⟩, _⟩ := h; cases ha)
+      exact hoareM_conseq (hoareM_ofExcept H _ r) (fun _ h => h) (fun _ _ h => h.2.2)
+    · intro c h
+      rcases h with ⟨h1, h2⟩ | ⟨⟨e, he⟩, _⟩
+      · cases h1; exact ⟨rfl, h2⟩
+      · cases he
+  · intro e c h
+    rcases h with ⟨h1, _⟩ | ⟨_, h2⟩
+    · cases h1
+    · rw [h2]; exact CredsKept.refl _
+
+end Fbr.PtHost
+
+namespace Fbr.PtHost
+open Fbr.Host
+
+variable {σ : Type} {α β : Type} {H : HostOps σ} [L : HostLaws H]
+
+/-! ### `drop_cap_fsetid` / `CapFsetid` -/
+
+theorem hoareM_sys_capget (c0 : Creds) :
+    HoareM H (· = c0) (M.sys .capget) (fun r c => r = .ok (.caps c0.effFsetid) ∧ c = c0) := by
+  intro st s hs
+  subst hs
+  simp only [M.sys, val_call, fin_call, val_pure, fin_pure]
+  exact ⟨by rw [L.capget_spec s], L.creds_other s .capget rfl⟩
+
+theorem hoareM_sys_capset (c0 : Creds) (b : Bool) :
+    HoareM H (· = c0) (M.sys (.capset b))
+      (fun r c => (r = .ok .ok ∧ c = { c0 with effFsetid := b }) ∨ ((∃ e, r = .ok (.err e)) ∧ c = c0)) := by
+  intro st s hs
+  subst hs
+  simp only [M.sys, val_call, fin_call, val_pure, fin_pure]
+  rcases L.capset_spec s b with ⟨h1, h2⟩ | ⟨⟨e, h1⟩, h2⟩
+  · left; exact ⟨by rw [h1], h2⟩
+  · right; exact ⟨⟨e, by rw [h1]⟩, h2⟩
+
+/-- a `capget` whose answer is known, followed by `k` -/
+theorem hoareM_capget_then (c0 : Creds) {k : HAns → M β} {R : Except Nat β → Creds → Prop}
+    (hk : HoareM H (· = c0) (k (.caps c0.effFsetid)) R) : HoareM H (· = c0) (M.sys .capget >>= k) R := by
+  refine hoareM_bind (hoareM_sys_capget c0) (fun a => ?_) (fun e c h => by cases h.1)
+  refine hoareM_conseq (P := fun c => a = .caps c0.effFsetid ∧ c = c0) (hoareM_pre_pure (fun ha => ?_))
+    (fun c h => ⟨by cases h.1; rfl, h.2⟩) (fun _ _ h => h)
+  subst ha
+  exact hk
+
+theorem hoareM_dropCap (c0 : Creds) :
+    HoareM H (· = c0) dropCapFsetid
+      (fun r c => (r = .ok false ∧ c = c0) ∨ (r = .ok true ∧ c0.effFsetid = true ∧ c = { c0 with effFsetid := false }) ∨
+                  ((∃ e, r = .error e) ∧ c = c0)) := by
+  unfold dropCapFsetid
+  refine hoareM_capget_then c0 ?_
+  cases he : c0.effFsetid with
+  | false =>
+    simp only []
+    exact hoareM_conseq (hoareM_pure H _ false) (fun _ h => h) (fun r c h => Or.inl h)
+  | true =>
+    simp only []
+    refine hoareM_capget_then c0 ?_
+    rw [he]; simp only []
+    refine hoareM_capget_then c0 ?_
+    rw [he]; simp only []
+    refine hoareM_bind (hoareM_sys_capset c0 false) (fun a => ?_) (fun e c h => by rcases h with ⟨h, _⟩ | ⟨⟨_, h⟩, _⟩ <;> cases h)
+    cases a with
+    | ok =>
+      simp only []
+      refine hoareM_conseq (hoareM_pure H _ true) (fun _ h => h) ?_
+      intro r c ⟨h1, h2⟩
+      rcases h2 with ⟨_, h2⟩ | ⟨⟨e, h3⟩, _⟩
+      · right; left; exact ⟨h1, trivial, h2⟩
+      · cases h3
+    | err e =>
+      simp only []
+      refine hoareM_conseq (hoareM_throw H _ E_KIND_PERM) (fun _ h => h) ?_
+      intro r c ⟨h1, h2⟩
+      rcases h2 with ⟨h3, _⟩ | ⟨_, h2⟩
+      · cases h3
+      · right; right; exact ⟨⟨_, h1⟩, h2⟩
+    | _ =>
+      simp only []
+      refine hoareM_conseq (hoareM_throw H _ E_KIND_PERM) (fun _ h => h) ?_
+      intro r c ⟨_, h2⟩
+      rcases h2 with ⟨h3, _⟩ | ⟨⟨_, h3⟩, _⟩ <;> cases h3
+
+theorem hoareM_sys_capset_raise (c0 : Creds) (hp : c0.permFsetid = true) (hu : c0.euid = 0) :
+    HoareM H (· = c0) (M.sys (.capset true)) (fun r c => r = .ok .ok ∧ c = { c0 with effFsetid := true }) := by
+  intro st s hs
+  subst hs
+  simp only [M.sys, val_call, fin_call, val_pure, fin_pure]
+  have z := L.capset_raise s hp hu
+  rcases L.capset_spec s true with ⟨h1, h2⟩ | ⟨⟨e, h1⟩, _⟩
+  · exact ⟨by rw [h1], h2⟩
+  · rw [z] at h1; cases h1
+
+/-- `impl Drop for CapFsetid` from a root state whose permitted set has the capability: afterwards
+    it is effective again -/
+theorem hoareM_raiseCap (c1 : Creds) (hp : c1.permFsetid = true) (hu : c1.euid = 0) :
+    HoareM H (· = c1) raiseCapFsetid (fun r c => (∃ a, r = .ok a) ∧ c = { c1 with effFsetid := true }) := by
+  unfold raiseCapFsetid
+  refine hoareM_capget_then c1 ?_
+  cases he : c1.effFsetid with
+  | true =>
+    simp only []
+    refine hoareM_conseq (hoareM_pure H _ ()) (fun _ h => h) ?_
+    intro r c ⟨h1, h2⟩
+    refine ⟨⟨_, h1⟩, ?_⟩
+    rw [h2]; cases c1; simp_all
+  | false =>
+    simp only []
+    refine hoareM_capget_then c1 ?_
+    rw [he]; simp only []
+    refine hoareM_bind (hoareM_sys_capset_raise c1 hp hu) (fun a => ?_) (fun e c h => by cases h.1)
+    exact hoareM_conseq (hoareM_pure H _ ()) (fun _ h => h) (fun r c h => ⟨⟨_, h.1⟩, h.2.2⟩)
+
+end Fbr.PtHost
+
+namespace Fbr.PtHost
+open Fbr.Host
+
+variable {σ : Type} {α β : Type} {H : HostOps σ} [L : HostLaws H]
+
+omit L in
+theorem hoareM_of_points {P : Creds → Prop} {m : M α} {Q : Except Nat α → Creds → Prop}
+    (h : ∀ c1, P c1 → HoareM H (· = c1) m Q) : HoareM H P m Q :=
+  fun st s hp => h _ hp st s rfl
+
+/-- `let _killpriv = if cond { drop_cap_fsetid()? } else { None }; body`: balanced when `body` is -/
+theorem neutralM_withKillpriv (cond : Bool) {body : M α} (hb : NeutralM H body) : NeutralM H (withKillpriv cond body) := by
+  refine neutralM_of_hoareM (fun c0 b => ?_)
+  unfold withKillpriv
+  have hfirst : HoareM H (· = c0) (if cond then dropCapFsetid else pure false : M Bool)
+      (fun r c => (r = .ok false ∧ c = c0) ∨ (r = .ok true ∧ c0.effFsetid = true ∧ c = { c0 with effFsetid := false }) ∨
+                  ((∃ e, r = .error e) ∧ c = c0)) := by
+    cases cond with
+    | true => simp only [if_true]; exact hoareM_dropCap c0
+    | false =>
+      simp only [Bool.false_eq_true, if_false]
+      exact hoareM_conseq (hoareM_pure H _ false) (fun _ h => h) (fun r c h => Or.inl h)
+  refine hoareM_bind hfirst (fun g => ?_) ?_
+  · cases g with
+    | false =>
+      -- no guard: the body alone
+      refine hoareM_conseq (P := fun c => c = c0) ?_ ?_ (fun _ _ h => h)
+      · refine hoareM_bind (hoareM_try (hb.hoareM c0 b)) (fun r => ?_) (fun e c h => by obtain ⟨x, hx, _⟩ := h; cases hx)
+        simp only [Bool.false_eq_true, if_false]
+        refine hoareM_bind (hoareM_pure H _ ()) (fun _ => ?_) (fun e c h => by cases h.1)
+        refine hoareM_conseq (hoareM_ofExcept H _ r) (fun _ h => h) ?_
+        intro a c ⟨_, _, ⟨x, _, h3⟩⟩
+        exact h3
+      · intro c h
+        rcases h with ⟨_, h2⟩ | ⟨h1, _⟩ | ⟨⟨e, he⟩, _⟩
+        · exact h2
+        · cases h1
+        · cases he
+    | true =>
+      refine hoareM_conseq (P := fun c => c0.effFsetid = true ∧ c = { c0 with effFsetid := false }) (hoareM_pre_pure (fun he => ?_)) ?_ (fun _ _ h => h)
+      · have b1 : Base ({ c0 with effFsetid := false } : Creds) := ⟨b.1, b.2.1, fun h => by cases h⟩
+        refine hoareM_bind (hoareM_try (hb.hoareM _ b1)) (fun r => ?_) (fun e c h => by obtain ⟨x, hx, _⟩ := h; cases hx)
+        simp only [if_true]
+        refine hoareM_bind (Q := fun _ c => CredsKept c0 c) (hoareM_of_points (fun c2 h2 => ?_)) (fun _ => ?_) (fun e c h => h)
+        · obtain ⟨x, _, k1, k2, k3, _⟩ := h2
+          have hp : c2.permFsetid = true := by rw [k3]; exact b.2.2 he
+          have hu : c2.euid = 0 := by rw [k1]; exact b.1
+          refine hoareM_conseq (hoareM_raiseCap c2 hp hu) (fun _ h => h) ?_
+          intro r c ⟨_, hc⟩
+          rw [hc]
+          exact ⟨k1, k2, k3, Or.inl (by simp [he])⟩
+        · exact hoareM_conseq (hoareM_ofExcept H _ r) (fun _ h => h) (fun _ _ h => h.2)
+      · intro c h
+        rcases h with ⟨h1, _⟩ | ⟨_, h2, h3⟩ | ⟨⟨e, he⟩, _⟩
+        · cases h1
+        · exact ⟨h2, h3⟩
+        · cases he
+  · intro e c h
+    rcases h with ⟨h1, _⟩ | ⟨h1, _⟩ | ⟨_, h2⟩
+    · cases h1
+    · cases h1
+    · rw [h2]; exact CredsKept.refl _
 
 end Fbr.PtHost
